@@ -240,8 +240,8 @@ pub open spec fn conn_reason_or_closed(c: Cell<ConnectionStopReason>) -> Connect
 //@@ param session_stop_reason : &Cell<SessionStopReason>
 //@@ subst `SessionControl::AllocateLink` => `SessionControl2::AllocateLink` rule=R11
 //@@ subst `let reason = || match session_stop_reason.get() { __E1 };` => `let reason = || -> (o: SessionStopReason) ensures o == sess_reason_or_ended(*session_stop_reason) { match session_stop_reason.get() { __E1 } };` rule=R18
-//@@ subst `.map_err(|_v0| AllocLinkError::SessionStopped(reason()))` => `.map_err(|_v0| -> (o: AllocLinkError) ensures o == AllocLinkError::SessionStopped(sess_reason_or_ended(*session_stop_reason)) { AllocLinkError::SessionStopped(reason()) })` rule=R18
-//@@ subst `.map_err(|_v1| AllocLinkError::SessionStopped(reason()))` => `.map_err(|_v1| -> (o: AllocLinkError) ensures o == AllocLinkError::SessionStopped(sess_reason_or_ended(*session_stop_reason)) { AllocLinkError::SessionStopped(reason()) })` rule=R18
+//@@ subst `.map_err(|_v0| AllocLinkError::SessionStopped(reason()))` => `.map_err(|_v0| -> (o: AllocLinkError) ensures o == AllocLinkError::SessionStopped(sess_reason_or_ended(*session_stop_reason)) { AllocLinkError::SessionStopped(reason()) })` rule=R18 unless `\.map_err\(`
+//@@ subst `.map_err(|_v1| AllocLinkError::SessionStopped(reason()))` => `.map_err(|_v1| -> (o: AllocLinkError) ensures o == AllocLinkError::SessionStopped(sess_reason_or_ended(*session_stop_reason)) { AllocLinkError::SessionStopped(reason()) })` rule=R18 unless `\.map_err\(`
 //@@ spec
     ensures
         old(control).closed@ ==> r == Err::<OutputHandle, AllocLinkError>(AllocLinkError::SessionStopped(sess_reason_or_ended(*session_stop_reason))),     // [C14.attach.stopped-session-says-why] an attach issued after (or while) the session stopped fails with SessionStopped carrying the PUBLISHED reason -- the peer's End error, the connection's fate; `Ended` only if none was recorded
@@ -258,8 +258,8 @@ pub struct InputHandleS { _p: u8 }
 //@@ param session_stop_reason : &Cell<SessionStopReason>
 //@@ subst `SessionControl::AllocateIncomingLink` => `SessionControl3::AllocateIncomingLink` rule=R11
 //@@ subst `let reason = || match session_stop_reason.get() { __E1 };` => `let reason = || -> (o: SessionStopReason) ensures o == sess_reason_or_ended(*session_stop_reason) { match session_stop_reason.get() { __E1 } };` rule=R18
-//@@ subst `.map_err(|_v0| AllocLinkError::SessionStopped(reason()))` => `.map_err(|_v0| -> (o: AllocLinkError) ensures o == AllocLinkError::SessionStopped(sess_reason_or_ended(*session_stop_reason)) { AllocLinkError::SessionStopped(reason()) })` rule=R18
-//@@ subst `.map_err(|_v1| AllocLinkError::SessionStopped(reason()))` => `.map_err(|_v1| -> (o: AllocLinkError) ensures o == AllocLinkError::SessionStopped(sess_reason_or_ended(*session_stop_reason)) { AllocLinkError::SessionStopped(reason()) })` rule=R18
+//@@ subst `.map_err(|_v0| AllocLinkError::SessionStopped(reason()))` => `.map_err(|_v0| -> (o: AllocLinkError) ensures o == AllocLinkError::SessionStopped(sess_reason_or_ended(*session_stop_reason)) { AllocLinkError::SessionStopped(reason()) })` rule=R18 unless `\.map_err\(`
+//@@ subst `.map_err(|_v1| AllocLinkError::SessionStopped(reason()))` => `.map_err(|_v1| -> (o: AllocLinkError) ensures o == AllocLinkError::SessionStopped(sess_reason_or_ended(*session_stop_reason)) { AllocLinkError::SessionStopped(reason()) })` rule=R18 unless `\.map_err\(`
 //@@ spec
     ensures
         old(control).closed@ ==> r == Err::<OutputHandle, AllocLinkError>(AllocLinkError::SessionStopped(sess_reason_or_ended(*session_stop_reason))),     // [C14.attach.stopped-session-says-why] (listener) accepting a link on a session that has stopped fails with SessionStopped carrying the published reason
@@ -270,8 +270,8 @@ impl ConnectionHandle2 {
 //@@ fn file=fe2o3-amqp/src/connection/mod.rs impl=`impl<R> ConnectionHandle<R>` name=allocate_session
 //@@ param tx : SessionTx
 //@@ subst `ConnectionControl::AllocateSession` => `ConnectionControl2::AllocateSession` rule=R11
-//@@ subst `.map_err(|_v0| { __E1 })` => `.map_err(|_v0| -> (o: AllocSessionError) ensures o == AllocSessionError::ConnectionStopped(conn_reason_or_closed(self.connection_stop_reason)) { __E1 })` rule=R18
-//@@ subst `.map_err(|_v1| { __E1 })` => `.map_err(|_v1| -> (o: AllocSessionError) ensures o == AllocSessionError::ConnectionStopped(conn_reason_or_closed(self.connection_stop_reason)) { __E1 })` rule=R18
+//@@ subst `.map_err(|_v0| { __E1 })` => `.map_err(|_v0| -> (o: AllocSessionError) ensures o == AllocSessionError::ConnectionStopped(conn_reason_or_closed(self.connection_stop_reason)) { __E1 })` rule=R18 unless `\.map_err\(`
+//@@ subst `.map_err(|_v1| { __E1 })` => `.map_err(|_v1| -> (o: AllocSessionError) ensures o == AllocSessionError::ConnectionStopped(conn_reason_or_closed(self.connection_stop_reason)) { __E1 })` rule=R18 unless `\.map_err\(`
 //@@ spec
     ensures
         old(self).control.closed@ ==> r == Err::<OutgoingChannel, AllocSessionError>(AllocSessionError::ConnectionStopped(conn_reason_or_closed(old(self).connection_stop_reason))),   // [C14.begin.stopped-connection-says-why] a begin issued after the connection stopped fails with ConnectionStopped carrying the published reason (the peer's Close error, the transport's fate)
